@@ -152,8 +152,8 @@ fn dump_dfa(d: &Dfa) -> String {
         edges
             .iter()
             .map(|(s, t, g)| format!("{}>{}:{}", s, t, dump_grapheme(g)))
-            .join(";"),
-        alphabet.iter().map(dump_grapheme).join(";")
+            .join("/"),
+        alphabet.iter().map(dump_grapheme).join("/")
     )
 }
 
